@@ -5,7 +5,7 @@ C13, part 5 — sign, then verify (the constructive direction).
 counts `(QDCOUNT, ANCOUNT + NSCOUNT, ARCOUNT − 1)` exactly to its end, append the TSIG RR built
 from a stub and a MAC (`tsigRRBytes`: uncompressed owner, TYPE 250, CLASS ANY, TTL 0, the RDATA of
 `TSIG::emit`).  Then `signed_bitmessage_to_buf` succeeds on the result, finds that RR, and returns
-as TBS exactly  previous MAC ‖ header(id := Original ID, ARCOUNT − 1) ‖ front[12..] ‖ TSIG variables
+as TBS exactly  previous MAC ‖ received header(id := Original ID, ARCOUNT − 1) ‖ front[12..] ‖ TSIG variables
 — i.e. (with `C13.reply_verifies` / `request_verifies`) what the signer MAC'ed.  Hence, under the
 MAC oracle, `verify_message_byte` accepts it (`signed_message_accepted`), and inside the window
 the server applies the update (`C13Panic`'s examples are instances).
@@ -476,7 +476,6 @@ header, ARCOUNT already counting the TSIG RR that is going to be appended -/
 structure Walkable (front : Bytes) (hd : Hdr) : Prop where
   hdr : readHdr front = some hd
   ar : hd.ar ≠ 0
-  noov : ¬ (hd.an + hd.ns > 65535)
   walk : ∃ pos p1 x y z, skipQueries front hd.qd 12 = .ok pos ∧
     readRecords front false (hd.opcode == 5) (hd.an + hd.ns) pos none none = .ok (p1, x, y) ∧
     readRecords front true (hd.opcode == 5) (hd.ar - 1) p1 none none
@@ -497,7 +496,7 @@ from (`n`, `d`): `signed_bitmessage_to_buf` finds exactly that RR and returns
 theorem valid_signed_message_verifies {front : Bytes} {hd : Hdr} (W : Walkable front hd)
     (n : Name) (d : TsigData) (E : Emittable n d) (prev : Option Bytes) (first : Bool) :
     signedBitmessageToBuf (front ++ tsigRRBytes n d) prev first true
-      = .ok (prevPart prev ++ emitHdr { hd with id := d.oid, ar := hd.ar - 1 } ++ front.drop 12 ++
+      = .ok (prevPart prev ++ hdrDigest front d.oid (hd.ar - 1) ++ front.drop 12 ++
               (if first then tsigVars n d else tsigTimers d),
              sigRecAt front n d) := by
   obtain ⟨pos, p1, x, y, z, hq, h1, h2⟩ := W.walk
@@ -508,13 +507,13 @@ theorem valid_signed_message_verifies {front : Bytes} {hd : Hdr} (W : Walkable f
   simp only
   have hloc : locateSig (front ++ tsigRRBytes n d) hd pos true = .ok (sigRecAt front n d) := by
     unfold locateSig
-    rw [if_neg W.noov]
     simp only [Bool.true_eq_false, ↓reduceIte]
     rw [readRecords_append_suffix _ _ _ _ _ _ _ _ _ h1]
     simp only
     rw [readRecords_append_suffix _ _ _ _ _ _ _ _ _ h2]
     simp only [Option.isSome_none, Bool.false_eq_true, ↓reduceIte]
     rw [readRecords_tsigRR front n d E _ (tsigRdata_ne d) none]
+    simp [sigRecAt]
   rw [hloc]
   simp only [Outcome.ok.injEq, Prod.mk.injEq, and_true]
   have h12 := readHdr_len W.hdr
@@ -523,25 +522,28 @@ theorem valid_signed_message_verifies {front : Bytes} {hd : Hdr} (W : Walkable f
     simp only [sigRecAt]
     rw [List.drop_append_of_le_length h12, List.take_append_of_le_length (by simp)]
     exact List.take_of_length_le (by simp)
-  simp only [tbsOf, hbody]
+  have hhdr : hdrDigest (front ++ tsigRRBytes n d) (sigRecAt front n d).data.oid (hd.ar - 1)
+      = hdrDigest front d.oid (hd.ar - 1) := by
+    simp only [hdrDigest, sigRecAt, decoded]
+    rw [List.drop_append_of_le_length (by omega), List.take_append_of_le_length (by simp; omega)]
+  simp only [tbsOf, hbody, hhdr]
   have e1 : (sigRecAt front n d).data.oid = d.oid := rfl
   have e2 : tsigVars (sigRecAt front n d).name (sigRecAt front n d).data = tsigVars n d :=
     tsigVars_decoded n d
   have e3 : tsigTimers (sigRecAt front n d).data = tsigTimers d := rfl
-  rw [e1, e2, e3]
+  rw [e2, e3]
 
 /-- **Sign, then verify (acceptance).**  If the MAC in the appended RR is one the key's oracle
-accepts for those bytes, the RR names the signer's key and algorithm, the MAC has full length and
-time ≥ fudge, then `verify_message_byte` accepts, with the window `[time − fudge, time + fudge)`. -/
+accepts for those bytes, the RR names the signer's key and algorithm and the MAC has full length,
+then `verify_message_byte` accepts, with the window `[time ∸ fudge, time + fudge)`. -/
 theorem signed_message_accepted {front : Bytes} {hd : Hdr} (W : Walkable front hd)
     (sg : Signer) (n : Name) (d : TsigData) (E : Emittable n d) (prev : Option Bytes)
     (first : Bool)
     (hname : Name.eq { n with fqdn := true } sg.name = true)
     (halg : algIs d.algName sg.alg = true)
     (hfull : outLen sg.alg ≤ d.mac.length)
-    (hmac : sg.macOK (prevPart prev ++ emitHdr { hd with id := d.oid, ar := hd.ar - 1 } ++
-        front.drop 12 ++ (if first then tsigVars n d else tsigTimers d)) d.mac = true)
-    (htf : d.fudge ≤ d.time) :
+    (hmac : sg.macOK (prevPart prev ++ hdrDigest front d.oid (hd.ar - 1) ++
+        front.drop 12 ++ (if first then tsigVars n d else tsigTimers d)) d.mac = true) :
     verifyMessageByte sg (front ++ tsigRRBytes n d) prev first true
       = .ok { mac := d.mac, time := d.time, lo := d.time - d.fudge, hi := d.time + d.fudge } := by
   unfold verifyMessageByte
@@ -551,8 +553,7 @@ theorem signed_message_accepted {front : Bytes} {hd : Hdr} (W : Walkable front h
     simpa [algIs] using halg
   simp only [hname, ha, Bool.and_self, Bool.true_eq_false, ↓reduceIte]
   have c1 : ¬ (d.mac.length < outLen sg.alg) := by omega
-  have c2 : ¬ (d.time < d.fudge) := by omega
-  simp only [c1, hmac, c2, ↓reduceIte, Bool.true_eq_false]
+  simp only [c1, hmac, ↓reduceIte, Bool.true_eq_false]
 
 /-! ### the reply the server builds is accepted by the client -/
 
@@ -561,8 +562,8 @@ theorem tsigVars_mac (n : Name) (d : TsigData) (m : Bytes) :
 
 /--
 **The signed reply is accepted (constructive form of `reply_verifies`).**
-`front` is the reply up to its TSIG RR (header id = Original ID = request id, Z clear, ARCOUNT
-counting the TSIG RR, walkable).  The server MACs `encode_response_tbs(request MAC, unsigned
+`front` is the reply up to its TSIG RR (header id = Original ID = request id, ARCOUNT counting
+the TSIG RR, walkable).  The server MACs `encode_response_tbs(request MAC, unsigned
 encoding, stub)` where the unsigned encoding is `front` with ARCOUNT − 1, and appends the TSIG RR
 carrying that MAC.  Under the MAC oracle assumption the client's
 `verify_message_byte(reply, Some(request MAC), first = true)` accepts, returning the reply MAC
@@ -571,9 +572,9 @@ carrying that MAC.  Under the MAC oracle assumption the client's
 theorem server_reply_accepted {front : Bytes} {hd : Hdr} (W : Walkable front hd)
     (w : Bytes.WF front) (sg : Signer) (tag : Bytes → Bytes) (O : MacOracle sg tag)
     (reqMac : Bytes) (stub : TsigData)
-    (hid : hd.id = stub.oid) (hz : reB3 hd.b3 = hd.b3)
+    (hid : hd.id = stub.oid)
     (hname : Name.eq { sg.name with fqdn := true } sg.name = true)
-    (halg : algIs stub.algName sg.alg = true) (htf : stub.fudge ≤ stub.time)
+    (halg : algIs stub.algName sg.alg = true)
     (E : Emittable sg.name { stub with mac := tag (encodeResponseTbs sg reqMac
         (unsignedOf front front.length (hd.ar - 1)) stub) }) :
     verifyMessageByte sg
@@ -583,12 +584,10 @@ theorem server_reply_accepted {front : Bytes} {hd : Hdr} (W : Walkable front hd)
       = .ok { mac := tag (encodeResponseTbs sg reqMac
                 (unsignedOf front front.length (hd.ar - 1)) stub)
               time := stub.time, lo := stub.time - stub.fudge, hi := stub.time + stub.fudge } := by
-  have key : prevPart (some reqMac) ++ emitHdr { hd with id := stub.oid, ar := hd.ar - 1 } ++
+  have key : prevPart (some reqMac) ++ hdrDigest front stub.oid (hd.ar - 1) ++
       front.drop 12 ++ tsigVars sg.name stub
       = encodeResponseTbs sg reqMac (unsignedOf front front.length (hd.ar - 1)) stub := by
-    have e1 : ({ hd with id := stub.oid, ar := hd.ar - 1 } : Hdr) = { hd with ar := hd.ar - 1 } := by
-      rw [← hid]
-    rw [e1, emitHdr_take10 w W.hdr hz]
+    rw [← hid, hdrDigest_take10 w W.hdr]
     simp only [prevPart, encodeResponseTbs, unsignedOf, List.take_length, List.append_assoc]
   have := signed_message_accepted W sg sg.name
     { stub with mac := tag (encodeResponseTbs sg reqMac
@@ -598,7 +597,6 @@ theorem server_reply_accepted {front : Bytes} {hd : Hdr} (W : Walkable front hd)
       simp only [↓reduceIte, tsigVars_mac]
       rw [key]
       exact (O.iff _ _).mpr rfl)
-    htf
   simpa using this
 
 /-- … and so does the `TSigVerifier` the client kept, provided its own request time lies in the
@@ -606,9 +604,9 @@ reply's window (and the final re-parse of the reply succeeds). -/
 theorem verifier_accepts_server_reply {front : Bytes} {hd : Hdr} (W : Walkable front hd)
     (w : Bytes.WF front) (sg : Signer) (tag : Bytes → Bytes) (O : MacOracle sg tag)
     (reqMac : Bytes) (requestTime : Nat) (stub : TsigData)
-    (hid : hd.id = stub.oid) (hz : reB3 hd.b3 = hd.b3)
+    (hid : hd.id = stub.oid)
     (hname : Name.eq { sg.name with fqdn := true } sg.name = true)
-    (halg : algIs stub.algName sg.alg = true) (htf : stub.fudge ≤ stub.time)
+    (halg : algIs stub.algName sg.alg = true)
     (E : Emittable sg.name { stub with mac := tag (encodeResponseTbs sg reqMac
         (unsignedOf front front.length (hd.ar - 1)) stub) })
     (hwin : stub.time - stub.fudge ≤ requestTime ∧ requestTime < stub.time + stub.fudge) :
@@ -622,7 +620,7 @@ theorem verifier_accepts_server_reply {front : Bytes} {hd : Hdr} (W : Walkable f
               remoteTime := stub.time, requestTime := requestTime } := by
   unfold Verifier.verify
   simp only [beq_self_eq_true]
-  rw [server_reply_accepted W w sg tag O reqMac stub hid hz hname halg htf E]
+  rw [server_reply_accepted W w sg tag O reqMac stub hid hname halg E]
   simp [hwin.1, hwin.2]
 
 /-! ### non-vacuity -/
@@ -630,7 +628,7 @@ theorem verifier_accepts_server_reply {front : Bytes} {hd : Hdr} (W : Walkable f
 /-- an UPDATE for the zone `.` with ARCOUNT = 1 (the TSIG RR to come) is walkable … -/
 example : Walkable [1, 1, 40, 0, 0, 1, 0, 0, 0, 0, 0, 1, 0, 0, 6, 0, 1]
     { id := 257, b2 := 40, b3 := 0, qd := 1, an := 0, ns := 0, ar := 1 } :=
-  ⟨by simp [readHdr, rd16], by decide, by decide,
+  ⟨by simp [readHdr, rd16], by decide,
     ⟨17, 17, none, none, none,
       by simp [skipQueries, readQuery, rd16, Name.readName, Name.readLabels, Name.new, Name.len,
         Name.dataLen],
